@@ -154,6 +154,21 @@ def e2e(w, res, r, scratch):
         c.close()
         bump("e2e:long-url")
         after("long-url", str(n), {"url_len": n}, got)
+    # the proxy's own /provision endpoint with hostile headers
+    for tick, cls in ((b"12\xff34", "tick-non-ascii"), ("ü".encode(), "tick-utf8"), (b"9" * 60, "tick-huge"), (b"-1", "tick-negative"), (b"", "tick-empty"), (b"1e9", "tick-float")):
+        for md in (b"True", b"\xfftrue", None):
+            c = w.open(record=False, timeout=5)
+            raw = b"GET /provision HTTP/1.1\r\nHost: x\r\nx-ms-azure-time_tick: " + tick + b"\r\n" + (b"Metadata: " + md + b"\r\n" if md is not None else b"") + b"x-ms-azure-notify: \xfe\r\n\r\n"
+            got = False
+            try:
+                c.send(raw); c.read_response(); got = True
+            except Exception:
+                pass
+            c.close()
+            bump("e2e:provision-query:" + cls)
+            if b"\xff" in tick + (md or b"") or cls == "tick-utf8":
+                res["nontrivial"].append("e2e-provision:%s:%s" % (cls, md))
+            after("provision-query-hostile-header", cls, {"tick": tick.hex(), "metadata": None if md is None else md.hex()}, got)
     # callers whose command line / user name contain multi-byte text placed so that the texts the agent builds cross 4096
     w.rules("imds", deny)
     made = 0
